@@ -24,6 +24,7 @@
 #include <stdlib.h>
 #include <string.h>
 #include <sys/ioctl.h>
+#include <poll.h>
 #include <sys/utsname.h>
 #include <sys/time.h>
 #include <sys/mount.h>
@@ -52,6 +53,7 @@ static int g_sample_sinks = 1;
 static int g_sample_state = 1;
 static long g_case_timeout_ms = 20000;
 static int g_automark;
+static pid_t g_fifo_reader;
 
 /* ---------------------------------------------------------------- event buffer */
 static char *eb;
@@ -996,6 +998,58 @@ static void exec_line(char *line) {
         close(fd);
         free(a);
         free(d);
+    } else if (!strcmp(c, "fifosink")) {
+        /* fifosink <fifo> <delay_ms>: create a FIFO and a reader process that opens it only after <delay_ms>, reads until
+           every writer is gone and stores what it got in <fifo>.out */
+        char *p = decode_bytes(tok[1], NULL);
+        long delay = atol(tok[2]);
+        unlink(p);
+        if (mkfifo(p, 0666) != 0) {
+            fprintf(stderr, "vdrive: mkfifo failed: %s\n", strerror(errno));
+            exit(3);
+        }
+        chmod(p, 0666);
+        pid_t rp = fork();
+        if (rp == 0) {
+            struct timespec ts = {delay / 1000, (delay % 1000) * 1000000L};
+            nanosleep(&ts, NULL);
+            /* non-blocking open: does not wait for a writer; a writer blocked in its own open() proceeds now */
+            int fd = open(p, O_RDONLY | O_NONBLOCK);
+            char outp[PATH_MAX];
+            snprintf(outp, sizeof outp, "%s.out", p);
+            int ofd = open(outp, O_WRONLY | O_CREAT | O_TRUNC, 0666);
+            char buf[65536];
+            int idle = 0, got_any = 0;
+            while (fd >= 0 && idle < 14) {          /* gives up 0.7 s after the last activity (or without any writer) */
+                struct pollfd pf = {fd, POLLIN, 0};
+                int pr = poll(&pf, 1, 50);
+                if (pr > 0 && (pf.revents & POLLIN)) {
+                    ssize_t r = read(fd, buf, sizeof buf);
+                    if (r > 0) {
+                        if (write(ofd, buf, r) != r) break;
+                        got_any = 1;
+                        idle = 0;
+                        continue;
+                    }
+                    if (r == 0 && got_any) break;    /* every writer is gone */
+                } else if (pr > 0 && (pf.revents & POLLHUP) && got_any) break;
+                idle++;
+            }
+            _exit(0);
+        }
+        g_fifo_reader = rp;
+        free(p);
+    } else if (!strcmp(c, "waitreader")) {
+        if (g_fifo_reader > 0) {
+            int st;
+            for (int i = 0; i < 3000; i++) {
+                if (waitpid(g_fifo_reader, &st, WNOHANG) == g_fifo_reader) break;
+                struct timespec ts = {0, 2000000};
+                nanosleep(&ts, NULL);
+                if (i == 2999) kill(g_fifo_reader, SIGKILL);
+            }
+            g_fifo_reader = 0;
+        }
     } else if (!strcmp(c, "hideproc")) {
         if (mount("tmpfs", "/proc", "tmpfs", 0, NULL) != 0) {
             fprintf(stderr, "vdrive: cannot hide /proc: %s\n", strerror(errno));
